@@ -60,65 +60,14 @@ func checkC13(r *core.Run, p *core.Program) {
 	checkCtxPrimitives(r, p, a, "C13.guards", "MarkObject", "LocalReferenceObject", "ValidateIdentifier", "BeginMarkerKeyable", "BeginMarkerAnyType",
 		"MarkEndedContainer", "LocalReferenceKeyable", "LocalReferenceAnyType")
 	if got, f := ctxSummary(p, a, "EndDocument"); f != nil {
+		got = canonEffect(got)
 		ok := strings.HasPrefix(got, "if(?pure:len($_this.forwardLocalReferences)>0){") && strings.Contains(got, "reject}")
 		r.Check("C13.guards", "rules.Context.EndDocument|unresolved-references-reject", f.Decl.Pos(), ok, "EndDocument must reject when forward references are unresolved; it does `"+got+"`")
 	} else {
 		r.Undecided("C13.guards", "rules.Context.EndDocument")
 	}
-	// MarkObject: the local the guards test is LocalReferenceCount+1, the forward-reference type check reads the forward map
-	if f := findFn(p, "rules", "Context.MarkObject"); f != nil {
-		info := f.Pkg.TypesInfo
-		okNew, okDupMap, okFwdMap := false, false, false
-		ast.Inspect(f.Decl.Body, func(n ast.Node) bool {
-			switch s := n.(type) {
-			case *ast.AssignStmt:
-				if len(s.Lhs) == 1 && len(s.Rhs) == 1 {
-					if id, ok := s.Lhs[0].(*ast.Ident); ok && id.Name == "newLocalReferenceCount" {
-						if be, ok := s.Rhs[0].(*ast.BinaryExpr); ok && be.Op == token.ADD {
-							if fld := fieldOf(info, be.X); fld != nil && fld.Name() == "LocalReferenceCount" {
-								if k, isC := constInt(info, be.Y); isC && k == 1 {
-									okNew = true
-								}
-							}
-						}
-					}
-				}
-			case *ast.IfStmt:
-				if as, ok := s.Init.(*ast.AssignStmt); ok && len(as.Rhs) == 1 {
-					if ix, ok := as.Rhs[0].(*ast.IndexExpr); ok {
-						if fld := fieldOf(info, ix.X); fld != nil {
-							if fld.Name() == "markedObjects" {
-								okDupMap = true
-							}
-							if fld.Name() == "forwardLocalReferences" {
-								okFwdMap = true
-							}
-						}
-					}
-				}
-			}
-			return true
-		})
-		r.Check("C13.guards", "rules.Context.MarkObject|operands", f.Decl.Pos(), okNew && okDupMap && okFwdMap,
-			"MarkObject must test LocalReferenceCount+1 against the limits, look the ID up in markedObjects (duplicate) and in forwardLocalReferences (type of earlier forward references)")
-	}
-	if f := findFn(p, "rules", "Context.LocalReferenceObject"); f != nil {
-		info := f.Pkg.TypesInfo
-		okLookup := false
-		ast.Inspect(f.Decl.Body, func(n ast.Node) bool {
-			if s, ok := n.(*ast.IfStmt); ok {
-				if as, ok := s.Init.(*ast.AssignStmt); ok && len(as.Rhs) == 1 {
-					if ix, ok := as.Rhs[0].(*ast.IndexExpr); ok {
-						if fld := fieldOf(info, ix.X); fld != nil && fld.Name() == "markedObjects" {
-							okLookup = true
-						}
-					}
-				}
-			}
-			return true
-		})
-		r.Check("C13.guards", "rules.Context.LocalReferenceObject|operands", f.Decl.Pos(), okLookup, "LocalReferenceObject must look the ID up in markedObjects")
-	}
+	// the operands of MarkObject and LocalReferenceObject (LocalReferenceCount+1, the markedObjects and
+	// forwardLocalReferences lookups) are part of their reference specifications compared above
 	// IsIdentifierSafe: empty -> false; every rune checked
 	if f := findFn(p, "internal/chars", "IsIdentifierSafe"); f == nil {
 		r.Undecided("C13.guards", "chars.IsIdentifierSafe")
